@@ -326,10 +326,16 @@ Definition stop_time_row (stops : list stop) (trips : list strip) (v : rowview) 
       end
     end
   end.
+(* static.go:786-788, 842-846: idToTrip holds, for every trip id, the LAST trip with that id; after the rows are read the code
+   ranges over that map and sorts each trip's stop times in place.  The map as an association list (trip id, index) *)
+Definition id_to_trip (trips : list strip) : list (string * nat) :=
+  fold_left (fun m it => aset (tp_id (snd it)) (fst it) m) (enum_from 0 trips) [].
+Definition sort_stop_times (t : strip) : strip :=
+  set_stop_times t (isort stoptime (fun a b => st_seq a <? st_seq b) (tp_stop_times t)).
 Definition parse_stop_times (stops : list stop) (trips : list strip) (hdr : list string) (rows : list (list string)) : list strip :=
   if has_columns hdr ["stop_id"; "stop_sequence"; "trip_id"] then
-    map (fun t => set_stop_times t (isort stoptime (fun a b => st_seq a <? st_seq b) (tp_stop_times t)))
-        (fold_left (fun ts cells => stop_time_row stops ts (view hdr cells)) rows trips)
+    let filled := fold_left (fun ts cells => stop_time_row stops ts (view hdr cells)) rows trips in
+    fold_left (fun ts ki => upd_trip ts (snd ki) sort_stop_times) (id_to_trip filled) filled
   else trips.
 
 (* ---------- ParseStatic (static.go:165-302): the file table in its fixed order ---------- *)
@@ -347,7 +353,12 @@ Definition open_file (name : string) (ms : list (string * string)) : opened :=
   end.
 Definition first_zone (agencies : list agency) : string := match agencies with a :: _ => ag_timezone a | [] => "UTC" end.
 
-Definition parse_static (inherit : bool) (ms : list (string * string)) : outcome static :=
+(* the three places where the Go code ranges over a map (services, shapes, the per-trip stop-time sort) are parameters:
+   ParseStatic itself is the instance below; Model/Purity.v instantiates them with iteration-order adversaries (C06) *)
+Definition parse_static_gen (services_of' : list (string * service) -> list service)
+    (parse_shapes' : list string -> list (list string) -> list shape)
+    (parse_stop_times' : list stop -> list strip -> list string -> list (list string) -> list strip)
+    (inherit : bool) (ms : list (string * string)) : outcome static :=
   match open_file "agency.txt" ms with
   | Absent => Err "no agency.txt" | Bad => Err "agency.txt"
   | Rows h1 r1 =>
@@ -372,11 +383,11 @@ Definition parse_static (inherit : bool) (ms : list (string * string)) : outcome
             match open_file "calendar_dates.txt" ms with
             | Bad => Err "calendar_dates.txt"
             | cdf =>
-              let services := services_of (match cdf with Rows h r => parse_calendar_dates zone m1 h r | _ => m1 end) in
+              let services := services_of' (match cdf with Rows h r => parse_calendar_dates zone m1 h r | _ => m1 end) in
               match open_file "shapes.txt" ms with
               | Bad => Err "shapes.txt"
               | sf =>
-                let shapes := match sf with Rows h r => parse_shapes h r | _ => [] end in
+                let shapes := match sf with Rows h r => parse_shapes' h r | _ => [] end in
                 match open_file "trips.txt" ms with
                 | Absent => Err "no trips.txt" | Bad => Err "trips.txt"
                 | Rows h8 r8 =>
@@ -389,7 +400,7 @@ Definition parse_static (inherit : bool) (ms : list (string * string)) : outcome
                     | Absent => Err "no stop_times.txt" | Bad => Err "stop_times.txt"
                     | Rows h10 r10 =>
                       Ok {| x_agencies := agencies; x_routes := routes; x_stops := stops; x_transfers := transfers; x_services := services;
-                            x_trips := parse_stop_times stops trips h10 r10; x_shapes := shapes; x_warnings := warns |}
+                            x_trips := parse_stop_times' stops trips h10 r10; x_shapes := shapes; x_warnings := warns |}
                     end
                   end
                 end
@@ -400,6 +411,7 @@ Definition parse_static (inherit : bool) (ms : list (string * string)) : outcome
       end
     end
   end.
+Definition parse_static : bool -> list (string * string) -> outcome static := parse_static_gen services_of parse_shapes parse_stop_times.
 End Oracles.
 (* Stop.Root with explicit fuel on a result *)
 Definition root_fuel (fuel : nat) (stops : list stop) (i : nat) : option nat := walk fuel (map s_parent stops) i.
